@@ -56,6 +56,12 @@ def enum_offsets(tier):
                     if slow and (k != len(r) or ri in NEVER_COMPLETE):
                         continue
                     yield {"req": ri, "k": k, "delivery": delivery, "slow_handler": slow}
+                    if slow:
+                        # the complete request waits in a middleware chain that takes longer than the request timeout
+                        yield {"req": ri, "k": k, "delivery": delivery, "slow_handler": False, "slow_mw": True}
+                if r.startswith(b"titan") and delivery == "one" and k in (0, 5, r.index(b"\r\n"), r.index(b"\r\n") + 2, len(r) - 1, len(r)):
+                    # Titan sent to a server without an upload handler
+                    yield {"req": ri, "k": k, "delivery": delivery, "slow_handler": False, "uploads": False}
 
 
 def run_offsets(case: dict):
@@ -70,9 +76,11 @@ def run_offsets(case: dict):
         sim = srvsim.Sim(loop)
         slow = case["slow_handler"]
         handler = srvsim.build_handler(sim, {"kind": "async-value", "status": 20, "meta": "text/gemini", "body": "B", "gate": slow})
-        up = srvsim.build_upload(sim, {"kind": "value", "status": 20, "meta": "text/gemini", "body": "S", "gate": slow})
+        up = srvsim.build_upload(sim, {"kind": "value", "status": 20, "meta": "text/gemini", "body": "S", "gate": slow}) \
+            if case.get("uploads", True) else None
+        mw = srvsim.build_middleware(sim, [{"kind": "allow", "gate": True}]) if case.get("slow_mw") else None
         tr = FakeTransport(loop)
-        proto = GeminiServerProtocol(handler, None, up)
+        proto = GeminiServerProtocol(handler, mw, up)
         tr.attach(proto)
         if case["delivery"] == "one":
             if prefix:
@@ -92,6 +100,15 @@ def run_offsets(case: dict):
     S = tr.written()
     info = {"S": b2s(S[:60]), "closed_at": tr.close_time(), "complete": complete}
     wf = srvsim.parse_wf(S) if S else "empty"
+    if not case.get("uploads", True):
+        # no upload handler: whatever is answered (50 at once, or 40 after the timeout), the peer must not stay connected
+        if tr.close_time() is None:
+            return viol("never-disconnected", f"Titan without an upload handler, peer silent after {case['k']} bytes; still open at {HORIZON}s", **info)
+        if tr.close_time() > 30.5:
+            return viol("disconnected-late", f"closed at t={tr.close_time()}", **info)
+        if isinstance(wf, str) or wf[0] not in (40, 50, 59):
+            return viol("no-40-on-timeout", f"{S[:80]!r}", **info)
+        return ok(**info)
     if not complete:
         if tr.close_time() is None:
             return viol("never-disconnected", f"stalled after {case['k']} bytes; still open at {HORIZON}s", **info)
@@ -101,7 +118,7 @@ def run_offsets(case: dict):
             return viol("no-40-on-timeout", f"{S[:80]!r}", **info)
         return ok(**info)
     # complete request: never a timeout response; only the handler's
-    if case["slow_handler"]:
+    if case["slow_handler"] or case.get("slow_mw"):
         if at100[0]:
             return viol("timeout-fired-after-complete-request", f"at t=100 with handler pending: {at100[0][:60]!r}", **info)
     exp = b"20 text/gemini\r\n" + (b"B" if data.startswith(b"gemini") else b"S")
